@@ -109,7 +109,7 @@ fn cases(args: &Args, rng: &mut Rng) -> Vec<C12Case> {
         }
     }
     // several channels, concurrent sender tasks, faults on setup chunks
-    for (i, f) in ["-", "B.COOKIEACK.1.drop", "A.INIT.1.late4+B.INITACK.1.dup", "A.COOKIEECHO.1.dup+A.DATA.2.delay3", "A.DATA.1.drop+A.DATA.4.drop+B.SACK.1.drop"].iter().enumerate() {
+    for (i, f) in ["-", "B.COOKIEACK.1.drop", "A.INIT.1.late4+B.INITACK.1.dup", "A.COOKIEECHO.1.dup+A.DATA.2.delay3", "A.DATA.1.drop+A.DATA.4.drop+B.SACK.1.drop", "A.INIT.1.dup", "A.INIT.1.dup+A.COOKIEECHO.1.late3"].iter().enumerate() {
         let a = vec![spec(1, Kind::RelOrd, true, 0), spec(2, Kind::RelUnord, false, 0), spec(4, Kind::RelOrd, false, 0), spec(3, Kind::RelUnord, true, 0)];
         let b = vec![spec(1, Kind::RelOrd, true, 0), spec(3, Kind::RelUnord, true, 0)];
         let mut plan = vec![];
@@ -159,6 +159,15 @@ fn cases(args: &Args, rng: &mut Rng) -> Vec<C12Case> {
         let b = vec![spec(1, Kind::RelOrd, true, 0)];
         let plan = [(0usize, 2u16, 100usize, 200u8), (0, 2, 3000, 200), (0, 2, 7, 200), (0, 1, 50, 201), (0, 1, 60, 201), (1, 1, 9, 200)];
         v.push(mk(&format!("send-before-open{i}"), a, b, &plan, f, (None, None), vec![], false));
+    }
+    // Z1: a partially reliable sibling, a receive window of two chunks and ONE lost SACK (the window update): once the abandoned
+    // records are gone nothing is left to time out — the reliable channel still has to get through (zero-window probe)
+    for (i, f) in ["A.TSN.0.dropn1+A.FWDTSN.1.drop+B.SACK.2.drop", "A.TSN.0.dropn1+B.SACK.2.drop", "A.TSN.0.dropn1+A.FWDTSN.1.drop+B.SACK.3.drop", "A.TSN.1.dropn1+B.SACK.2.drop+B.SACK.3.drop"].iter().enumerate() {
+        let ch = vec![spec(2, Kind::RexUnord, true, 0), spec(1, Kind::RelOrd, true, 0)];
+        let mut c = mk(&format!("pr-sibling-closed-window-sack-lost{i}"), ch.clone(), ch, &[(0, 2, 1, 0), (0, 2, 2344, 0), (0, 1, 50, 0), (0, 1, 60, 0)], f, (Some(1000), Some(5000)), vec![], false);
+        for e in c.case.cfg.iter_mut() { e.rwnd = 2368; e.max_burst = 16; }
+        c.case.msgs[2].phase = 1; c.case.msgs[3].phase = 1;
+        v.push(c);
     }
     // W3: an in-band PR channel whose creator sends right after creating it (eager task) and ONE lost datagram — the OPEN
     // itself or the first message right behind it: the OPEN stays reliable, the channel opens, later messages arrive
@@ -284,6 +293,12 @@ fn cases(args: &Args, rng: &mut Rng) -> Vec<C12Case> {
             *rng.pick(&["DATA", "DATA", "SACK", "ANY"]), rng.range(1, 9), *rng.pick(&["drop", "dup", "delay2", "late3"])) }).collect();
         v.push(mk(&format!("rand{r}"), a, b, &plan, &if fs.is_empty() { "-".to_string() } else { fs.join("+") }, (None, None), vec![], rng.chance(1, 4)));
     }
+    // the SCTP *server* (side B) as in-band creator, bulk sender, lossy partially reliable sender, closer: the cases of these
+    // families with the roles of A and B exchanged (name prefix `m-`)
+    let fam = ["-dcep", "pr-", "send-before-open", "dcep-long-label1", "close-one-channel", "flow-control", "dcep-ack-with-full", "multi0", "multi3"];
+    let mirrored: Vec<C12Case> = v.iter().enumerate().filter(|(i, c)| fam.iter().any(|f| c.name.contains(f)) && !c.name.starts_with("forward-tsn") && (args.tier_thorough || i % 2 == 0 || c.name.starts_with("pr-inband") || c.name.starts_with("kind0")))
+        .map(|(_, c)| C12Case { name: format!("m-{}", c.name), case: mirror(&c.case), multi_thread: c.multi_thread }).collect();
+    v.extend(mirrored);
     v
 }
 
